@@ -69,6 +69,15 @@ def gen_cases(rng, tier, scale):
                                          ('{{#if a}}A{{else if b}}B{{else with o.zz}}C{{/if}}', {'o': {}}, 'o.zz'),
                                          ('{{#each l}}{{#if this}}y{{else each ../nope}}n{{/if}}{{/each}}', {'l': [0]}, '../nope')]):
         cases.append(rcase(f'cl{k4}', tpl, d, pre=['strict 1'], entry=4, kind='hookstrict', path=path, tags=['chain-last-link-missing']))
+    # an @-variable reached through more `../` than there are enclosing blocks designates nothing: MissingVariable naming it
+    for k5, (tpl, d, path) in enumerate([('{{#each a}}{{@../../index}}{{/each}}', {'a': [1, 2]}, '@../../index'),
+                                         ('{{#each a}}{{@../index}}{{/each}}', {'a': [1]}, '@../index'),
+                                         ('{{#each a}}{{#each this}}{{@../../../index}}{{/each}}{{/each}}', {'a': [[1]]}, '@../../../index'),
+                                         ('{{#each o}}{{@../../key}}{{/each}}', {'o': {'k': 1}}, '@../../key'),
+                                         ('{{#each a}}{{#with this}}{{@../../../first}}{{/with}}{{/each}}', {'a': [{'x': 1}]}, '@../../../first'),
+                                         ('{{#each a}}{{> p}}{{/each}}', {'a': [1]}, '@../../../index'),
+                                         ('{{@../index}}', {}, '@../index'), ('{{#with o}}{{@../../key}}{{/with}}', {'o': {'k': 1}}, '@../../key')]):
+        cases.append(rcase(f'ov{k5}', tpl, d, pre=['strict 1'], partials={'p': '[{{@../../../index}}]'}, entry=0, kind='hookstrict', path=path, tags=['local-var-overshoot']))
     return cases
 
 FIXED = {0: ('err', 'MissingVariable', '-'), 1: ('err', 'MissingVariable', '-'), 2: ('ok', ''),
